@@ -298,6 +298,13 @@ def _tail_returns(stmts: List[ast.stmt], make) -> Optional[List[ast.stmt]]:
         if b is None or o is None:
             return None
         return head + [ast.If(test=last.test, body=b, orelse=o)]
+    if isinstance(last, ast.With) and last.body and any(isinstance(n, ast.Return) for n in ast.walk(last)):
+        # `with cm: ... return e`: the value is computed inside the block, the block is left, the
+        # value is returned: the same as binding it inside and going on after the block
+        b = _tail_returns(last.body, make)
+        if b is None:
+            return None
+        return head + [ast.With(items=last.items, body=b)]
     for n in [last] + list(_walk_no_nested(last)):
         if isinstance(n, (ast.Return, ast.Yield, ast.YieldFrom)):
             return None
@@ -1142,7 +1149,11 @@ class _ExprCanon(ast.NodeTransformer):
             if _dump(inner2) != _dump(inner):
                 return self._test(ast.UnaryOp(op=ast.Not(), operand=inner2))
             return e
-        if isinstance(e, ast.BinOp) and isinstance(e.op, (ast.BitOr, ast.BitAnd)) and all(isinstance(x, (ast.Compare, ast.BoolOp)) or (isinstance(x, ast.BinOp) and isinstance(x.op, (ast.BitOr, ast.BitAnd))) for x in (e.left, e.right)):
+        if isinstance(e, ast.BinOp) and isinstance(e.op, (ast.BitOr, ast.BitAnd)) and all(
+            isinstance(x, (ast.Compare, ast.BoolOp)) or (isinstance(x, ast.BinOp) and isinstance(x.op, (ast.BitOr, ast.BitAnd)))
+            or (isinstance(x, ast.Call) and isinstance(x.func, ast.Name) and x.func.id in ("any", "all", "isinstance", "bool", "hasattr", "callable"))
+            or (isinstance(x, ast.UnaryOp) and isinstance(x.op, ast.Not))
+            for x in (e.left, e.right)):
             # (a < b) | (c == d) as the test of an if: both operands are booleans there
             return self._test(ast.BoolOp(op=ast.Or() if isinstance(e.op, ast.BitOr) else ast.And(), values=[e.left, e.right]))
         if isinstance(e, ast.BoolOp):
@@ -1294,6 +1305,16 @@ class _ExprCanon(ast.NodeTransformer):
 
     def visit_Call(self, n):
         self.generic_visit(n)
+        if any(isinstance(a, ast.Starred) and isinstance(a.value, ast.Tuple) for a in n.args):
+            flat = []
+            for a in n.args:
+                if isinstance(a, ast.Starred) and isinstance(a.value, ast.Tuple):
+                    flat.extend(a.value.elts)  # f(*(a, b)) is f(a, b)
+                else:
+                    flat.append(a)
+            n.args = flat
+        if unparse_name(n.func) in ("delete", "numpy.delete") and len(n.args) == 2 and len(n.keywords) == 1 and n.keywords[0].arg == "axis":
+            n.func = ast.Attribute(value=ast.Name(id="np", ctx=ast.Load()), attr="delete", ctx=ast.Load())
         # list(<generator expression>) -> list comprehension (then maybe list(iter))
         if isinstance(n.func, ast.Name) and n.func.id == "list" and len(n.args) == 1 and not n.keywords:
             a = n.args[0]
@@ -1316,6 +1337,15 @@ class _ExprCanon(ast.NodeTransformer):
 
     def visit_Subscript(self, n):
         self.generic_visit(n)
+        # X[:, arange(X.shape[1]) != i]  ==  delete(X, i, axis=1)   (column i removed)
+        if isinstance(n.ctx, ast.Load) and isinstance(n.slice, ast.Tuple) and len(n.slice.elts) == 2:
+            rows, cols = n.slice.elts
+            if isinstance(rows, ast.Slice) and rows.lower is None and rows.upper is None and rows.step is None and isinstance(cols, ast.Compare) and len(cols.ops) == 1 and isinstance(cols.ops[0], ast.NotEq):
+                for a, b in ((cols.left, cols.comparators[0]), (cols.comparators[0], cols.left)):
+                    if (isinstance(a, ast.Call) and (unparse_name(a.func) in ("arange", "np.arange", "numpy.arange")) and len(a.args) == 1
+                            and _dump(a.args[0]) == _dump(ast.Subscript(value=ast.Attribute(value=n.value, attr="shape", ctx=ast.Load()), slice=ast.Constant(value=1), ctx=ast.Load()))):
+                        fn_ = ast.Attribute(value=ast.Name(id="np", ctx=ast.Load()), attr="delete", ctx=ast.Load())
+                        return ast.Call(func=fn_, args=[n.value, b], keywords=[ast.keyword(arg="axis", value=ast.Constant(value=1))])
         # {"k": e, ...}["k"]  ->  e
         if isinstance(n.ctx, ast.Load) and isinstance(n.value, ast.Dict) and isinstance(n.slice, ast.Constant) and all(isinstance(k, ast.Constant) for k in n.value.keys) and not any(_impure(v) for v in n.value.values):
             hits = [v for k, v in zip(n.value.keys, n.value.values) if k.value == n.slice.value and type(k.value) is type(n.slice.value)]
@@ -1352,6 +1382,13 @@ class _ExprCanon(ast.NodeTransformer):
         if isinstance(n.op, ast.Add) and isinstance(n.target, ast.Name) and n.target.id in self.list_names and isinstance(n.value, ast.List) and len(n.value.elts) == 1:
             return ast.Expr(value=ast.Call(func=ast.Attribute(value=ast.Name(id=n.target.id, ctx=ast.Load()), attr="append", ctx=ast.Load()), args=[n.value.elts[0]], keywords=[]))
         return n
+
+
+def unparse_name(e) -> str:
+    try:
+        return ast.unparse(e)
+    except Exception:
+        return ""
 
 
 def _dump_noctx(e) -> str:
@@ -2319,10 +2356,48 @@ def canonical_names(fn):
 # ---------------------------------------------------------------------------------------------
 # the pipeline
 # ---------------------------------------------------------------------------------------------
+def inline_local_closures(fn):
+    """def g(a): return <expr over a and the enclosing locals>   (a local one-expression function that
+    is only called, never passed around)  ->  its calls are replaced by the expression, when nothing
+    the expression reads is re-assigned after the definition."""
+    for i, st in enumerate(list(fn.body)):
+        if not isinstance(st, ast.FunctionDef) or st.decorator_list:
+            continue
+        body = _strip_block(strip(copy.deepcopy(st)).body)
+        if not (len(body) == 1 and isinstance(body[0], ast.Return) and body[0].value is not None):
+            continue
+        g = st.name
+        refs = [n for n in ast.walk(fn) if isinstance(n, ast.Name) and n.id == g]
+        calls_ = [n for n in ast.walk(fn) if isinstance(n, ast.Call) and isinstance(n.func, ast.Name) and n.func.id == g]
+        if not calls_ or len(refs) != len(calls_):
+            continue  # passed as a value somewhere
+        params = set(_params(st))
+        free = {n.id for n in ast.walk(body[0].value) if isinstance(n, ast.Name)} - params
+        later_stores = {n.id for s2 in fn.body[i + 1:] for n in ast.walk(s2) if isinstance(n, ast.Name) and isinstance(n.ctx, ast.Store)}
+        if free & later_stores:
+            continue
+        ok = True
+        for c in calls_:
+            bound = _bind_args(st, c, False)
+            if bound is None:
+                ok = False
+                break
+        if not ok:
+            continue
+        for c in calls_:
+            bound = _bind_args(st, c, False)
+            _replace_node(fn, c, _Subst(bound).visit(copy.deepcopy(body[0].value)))
+        fn.body.remove(st)
+        ast.fix_missing_locations(fn)
+        return inline_local_closures(fn)
+    return fn
+
+
 def canon(fn, table: Optional[HelperTable] = None):
     fn = copy.deepcopy(fn)
     fn.decorator_list = list(fn.decorator_list)
     fn = strip(fn)
+    fn = inline_local_closures(fn)
     if table is not None:
         fn = inline_helpers(fn, table)
         fn = strip(fn)
